@@ -186,3 +186,83 @@ pub fn run_streams() {
         println!("{}", r);
     });
 }
+
+/// Known finding F13: Executor::drop racing a wake that is parked between its state change and its enqueue.
+struct DropFut {
+    slots: Slots,
+    log: Log,
+}
+impl Future for DropFut {
+    type Output = usize;
+    fn poll(self: Pin<&mut Self>, cx: &mut Context<'_>) -> Poll<usize> {
+        *self.slots[0].lock().unwrap() = Some(cx.waker().clone());
+        Poll::Pending
+    }
+}
+impl Drop for DropFut {
+    fn drop(&mut self) {
+        self.log.lock().unwrap().push("DROPPED".into());
+    }
+}
+
+fn run_f13(race: bool) -> String {
+    let log: Log = Arc::new(Mutex::new(vec![]));
+    let slots: Slots = Arc::new(vec![Mutex::new(None)]);
+    let mut sched = Sched::new(2);
+    {
+        let log = log.clone();
+        let slots = slots.clone();
+        sched.spawn(0, move || {
+            let mut event_loop: EventLoop<'static, ()> = EventLoop::try_new().expect("loop");
+            let (exec, scheduler) = executor::<usize>().expect("executor");
+            let token = event_loop.handle().insert_source(exec, |_, _, _| {}).expect("insert");
+            let _ = scheduler.schedule(DropFut { slots, log: log.clone() });
+            let _ = event_loop.dispatch(Some(Duration::ZERO), &mut ());
+            yield_here(70);
+            event_loop.handle().remove(token); // drops the Executor
+            drop(scheduler);
+            log.lock().unwrap().push("EXECUTOR-GONE".into());
+            yield_here(71);
+            std::mem::forget(event_loop);
+        });
+    }
+    {
+        let slots = slots.clone();
+        sched.spawn(1, move || {
+            yield_here(60);
+            let w = slots[0].lock().unwrap().clone();
+            if let Some(w) = w {
+                w.wake_by_ref();
+            }
+        });
+    }
+    for i in 0..2 {
+        sched.step(i);
+    }
+    // loop: schedule (3 steps), dispatch (poll, drain, store, try_recv+poll, try_recv) -> parked at 70
+    for _ in 0..8 {
+        do_step(0, &log, &sched);
+    }
+    if race {
+        do_step(1, &log, &sched); // the wake: task marked scheduled, parked before the enqueue
+    }
+    // the executor is dropped (its steps run until yield 71)
+    let mut guard = 0;
+    while !matches!(sched.status(0), crate::sched::Status::Parked(71) | crate::sched::Status::Finished) && guard < 50 {
+        guard += 1;
+        do_step(0, &log, &sched);
+    }
+    let _ = finalize(&sched, 2, &log);
+    let dropped = log.lock().unwrap().iter().any(|l| l == "DROPPED");
+    let out = log.lock().unwrap().join(" ");
+    sched.finish();
+    format!("{} {}", out, if dropped { "FUTURE-DROPPED" } else { "FUTURE-LEAKED" })
+}
+
+pub fn run13() {
+    crate::for_each_line(|l| {
+        let race = l.trim() == "race";
+        let r = std::panic::catch_unwind(move || run_f13(race)).unwrap_or_else(|_| "PANIC".to_string());
+        println!("{}", r);
+    });
+}
